@@ -148,6 +148,13 @@ def main():
             n = sum(len(v) for v in lean.source_theorems(mods).values())
             audit = {'obligations': n, 'discharged': 0, 'failures': ['build failed'], 'axioms': set(),
                      'theorems': [], 'modules': mods}
+    # thorough tier: independent re-check of the compiled proof modules
+    if build_ok and not args.no_build and args.tier == 'thorough':
+        rc_lc, out_lc, _ = lean.run(['lake', 'env', 'leanchecker'] + audit['modules'])
+        audit['leanchecker'] = 'ok' if rc_lc == 0 else out_lc[-1500:]
+        if rc_lc != 0:
+            audit['failures'].append('leanchecker rejected the compiled modules: ' + out_lc[-1500:])
+            proof_notes.append(audit['failures'][-1])
     proof_ok = build_ok and audit is not None and not audit['failures'] and audit['obligations'] > 0 \
         and audit['discharged'] == audit['obligations']
     if args.no_build:
